@@ -268,6 +268,11 @@ def parse_listed(world, names):
     if world is not None:
         for t in world['tests']:
             by_name[test_name(world, t)] = t
+            # CPython < 3.11 spells str(test) as "name (module.Class)"
+            for c, cs in world['classes'].items():
+                if t in cs['tests']:
+                    m = world['tests'][t].get('name', 'test_' + t)
+                    by_name.setdefault('%s (tests.%s)' % (m, c), t)
     ids, layers, other = [], [], []
     for n in names:
         m = re.match(r'^Layer: (.+)\.(setUp|tearDown)$', n)
